@@ -1,6 +1,7 @@
 SPECIFICATION Spec
 CONSTANTS MaxBlock = 5 MaxOps = 9 MaxLen = 12
   Ms = {0, 1, 2}
+  Takes = {0, 1, 2}
   SplitBufs <- SplitBufsThorough
   Variant = "intended"
 INVARIANT Emitted
